@@ -138,7 +138,7 @@ impl Property for C10 {
         }
         {
             let o = crate::canon::CanonOpts { dir: String::new(), mask_refreshable: false };
-            if !feature_on("adjacent_lists") && crate::canon::has_adjacent_same_lists(&crate::canon::canon(&s0, &o).blocks) {
+            if !feature_on("adjacent_lists") && crate::canon::has_adjacent_lists_any(&crate::canon::canon(&s0, &o).blocks) {
                 return Verdict::Discard("known-domain: adjacent lists of the same kind".into());
             }
         }
@@ -245,7 +245,15 @@ impl Property for C10 {
                         (last < t0 && t0 - last <= 2) || (first > t1 && first - t1 <= 2) || (first >= t0 && last <= t1)
                     }
                 });
-                if !adjacent {
+                // a section that follows a sibling section ends up inside that sibling as a list and
+                // comes back one level deeper (known finding KF-SECTION-LIST-SIBLING)
+                let hs = actions::headings(&f);
+                let my = hs.iter().position(|(l, _, _)| *l == off.line as usize);
+                let follows_sibling = match my {
+                    Some(i) if i > 0 => hs[i - 1].1 >= hs[i].1,
+                    _ => false,
+                };
+                if !adjacent && (!follows_sibling || feature_on("section_list_sibling")) {
                     srv.did_change(&case.key, &after);
                     let again = actions::offered(&mut srv, &case.key, &after, &["refactor.rewrite.list.section"]).unwrap_or_default();
                     if let Some(o2) = again.iter().find(|o| o.line == off.line) {
